@@ -41,6 +41,16 @@ OPS = [
     (r"&&", "||"), (r"\|\|", "&&"), (r"\+ 1\b", "+ 2"), (r"- 1\b", "- 0"), (r"\+= 1\b", "+= 2"), (r"- 4\b", "- 3"),
     (r"\b0xfd\b", "0xfc"), (r"\b0x80\b", "0x40"), (r"\b0x7F\b", "0x3F"), (r"<< 7", "<< 6"), (r"\b210000\b", "210001"),
     (r"\bu64::from\(", "u64::from("),
+    # second operator set
+    (r"\bas u32\b", "as u16"), (r"\bas u64\b", "as u32"), (r"\bas usize\b", "as u8 as usize"),
+    (r"saturating_sub\(", "wrapping_sub("), (r"checked_sub\(", "checked_add("),
+    (r"\.skip\(1\)", ".skip(2)"), (r"\.skip\(2\)", ".skip(1)"),
+    (r"\btrue\b", "false"), (r"\bfalse\b", "true"),
+    (r"\.min\(", ".max("), (r"\.max\(", ".min("),
+    (r"\+= ", "= "), (r" \| ", " & "), (r" & ", " | "),
+    (r"\b32\b", "31"), (r"\b36\b", "35"), (r"\b80\b", "79"), (r"\b8\b", "9"), (r"\b4\b", "5"), (r"\b2\b", "3"), (r"\b0\b", "1"), (r"\b1\b", "0"),
+    (r"\.first\(\)", ".last()"), (r"\.last\(\)", ".first()"), (r"\.iter\(\)\.enumerate\(\)", ".iter().rev().enumerate()"),
+    (r"to_le_bytes", "to_be_bytes"), (r"LittleEndian", "BigEndian"),
 ]
 
 
